@@ -613,7 +613,10 @@ class DiscreteFourierTransformInverse(DiscreteFourierTransformBase):
             Result of the transform
         """
         if self.halfcomplex:
-            return np.fft.irfftn(x, axes=self.axes)
+            # The real shape must be given, it cannot be inferred from the
+            # half-complex shape for odd sizes
+            s = np.take(self.range.shape, self.axes)
+            return np.fft.irfftn(x, s=s, axes=self.axes)
         else:
             if self.sign == '+':
                 return np.fft.ifftn(x, axes=self.axes)
